@@ -93,6 +93,7 @@ def sym_bytes(name, lo=0, hi=None, default=None):
 
 # ---------------------------------------------------------------- HfSerialize
 CAPTURE = []          # frames serialised on this path (symbolic mode)
+NATIVE_DEPTH = [0]    # >0 while inside `with h2h.native()`: real bytes are produced
 
 
 def _pad_part(f):
@@ -198,7 +199,7 @@ class Out:
     def frames(self):
         buf = self.conn._data_to_send
         mark = self.mark if len(buf) >= self.mark else 0
-        if CTX.mode == 'sym':
+        if CTX.mode == 'sym' and not NATIVE_DEPTH[0]:
             with NoTracing():
                 tags = bytes(buf[mark:])
                 if any(b >= len(CAPTURE) for b in tags) or mark != self.mark:
@@ -233,6 +234,7 @@ def parse_frames(data, skip_preface=True):
 
 def reset_path_state():
     del CAPTURE[:]
+    NATIVE_DEPTH[0] = 0
 
 
 core.PATH_RESET_HOOKS.append(reset_path_state)
